@@ -137,6 +137,22 @@ PROPS["C14"] = {
     "assumptions": INST_ASSUME + ["Spec/Formulas.lean transcribes IEEE 1588-2019 11.4 (trusted)"],
 }
 
+PROPS["C08"] = {
+    "streams": [{"name": "inst"}],
+    "model_is_spec": ["inst"],
+    "spec_theorem": "every reachable model state has at most one Slave port, none on a master-only port, no Master on a slave-only instance (C08.reachable_inv, slave_only_from_start, slave_only_at_runtime) and every emitted frame / measurement is role-guarded (C08.emitters_guarded)",
+    "rule": "inst: mixed host histories (all timers, BMCA runs, Announce / Sync / Follow_Up / Delay / Pdelay frames from better, worse, "
+            "own-identity and unacceptable masters, transmit timestamps, run-time slave-only and quality changes) on instances with one "
+            "to three ports in every combination of master-only, slave-only, E2E / P2P. Compared after every op: every port state, the "
+            "type and interface of every emitted frame per port, every sync/delay measurement and every filter demobilisation. "
+            "Independent oracle on the implementation alone: <=1 Slave; no master-only Slave; no Master on an instance slave-only from the "
+            "start or after slave-only + BMCA; Announce/Sync/Follow_Up/Delay_Resp only from a port that was Master, Delay_Req only from "
+            "the Slave port, sync/delay measurements only on the Slave port. distinct = distinct ops that changed a state, emitted a frame or fed a filter",
+    "explanation": "Lean: Inv by induction over all host histories (step_inv, reachable_inv), emitters_guarded, slave-only theorems",
+    "assumptions": INST_ASSUME + ["every BMCA run is passed every port exactly once (PtpInstance::bmca asserts the count; the borrow checker gives distinctness)",
+                   "'only that port adjusts the clock' is observed as: sync/delay measurements reach a filter only on the Slave port (the clock is steered by the filter, which is the host's)"],
+}
+
 
 def split_obs(obs):
     """(items, status, state) of an instance-stream observation line"""
@@ -170,6 +186,21 @@ def projection(pid, stream, profile):
                 return m + " | " + st + " | " + ("demob" if ":demob" in obs else "")
             return None
         return f14
+    if pid == "C08":
+        def f8(op, obs):
+            items = obs.split(" | ")[0].split(" ; ")
+            keep = []
+            for it in items:
+                if ":send " in it:
+                    f = it.split()
+                    # P<k>:send evt|gen ... <hex>: keep port, interface and message type nibble
+                    keep.append(f"{f[0]} {f[1]} type={f[-1][1:2]}")
+                elif ":demob" in it:
+                    keep.append(it)
+            m = meas_items(obs, "e2e")
+            st = state_part(obs)
+            return " ; ".join(keep) + " | " + m + " | " + st
+        return f8
     if pid == "C07":
         def f7(op, obs):
             return obs if "#ins:" in op else None
